@@ -375,11 +375,13 @@ def c17_custom(pid, tier, seed, t0):
     nseeds = 40 if thorough else 3
     triggers = 20000
     runs = [(tag, q, P, seed * 1000 + k) for tag in [t for _, t in compilers] for q in (1, 2, 3, 8) for P in (1, 2, 4, 8) for k in range(nseeds)]
+    # every third run uses a mutex whose lock() gives up under contention (returns failure): the call must then do nothing at all
+    timed = {r: (i % 3 == 2) for i, r in enumerate(runs)}
     env = dict(os.environ, TSAN_OPTIONS='halt_on_error=1:exitcode=66:second_deadlock_stack=1')
     results, viols, inconc = [], [], []
     def one(r):
         tag, q, P, sd = r
-        cmd = [bins[(tag, q)], '--seed', str(sd), '--producers', str(P), '--triggers', str(triggers)]
+        cmd = [bins[(tag, q)], '--seed', str(sd), '--producers', str(P), '--triggers', str(triggers), '--timedlock', '1' if timed[r] else '0']
         try:
             pr = subprocess.run(cmd, capture_output=True, text=True, env=env, timeout=600)
         except subprocess.TimeoutExpired:
@@ -422,10 +424,11 @@ def c17_custom(pid, tier, seed, t0):
             path = os.path.join(rdir, 'C17-helgrind-s%d.txt' % seed); open(path, 'w').write(json.dumps({'prog': 'mt_stress', 'tag': 'helgrind', 'prop': 'C17'}) + '\n' + hr.stderr[-12000:])
             viols.append({'prop': 'C17', 'key': 'helgrind-report', 'case': 'helgrind', 'msg': 'helgrind report with a frame in cat.c', 'replay': path})
     agg.counters = {'lock_handovers': tot.get('handovers', 0), 'buffer_full_answers': tot.get('refused_full', 0), 'triggers_accepted': tot.get('accepted', 0), 'events_delivered': tot.get('delivered', 0),
-                    'contended_lock_attempts': tot.get('contended_locks', 0), 'holds_entered': tot.get('holds_entered', 0), 'lock_calls': tot.get('lock_calls', 0)}
+                    'contended_lock_attempts': tot.get('contended_locks', 0), 'holds_entered': tot.get('holds_entered', 0), 'lock_calls': tot.get('lock_calls', 0),
+                    'lock_failures_injected_by_timed_mutex': tot.get('lock_failures', 0), 'runs_with_failing_lock': sum(1 for r in runs if timed[r])}
     rule = 'one case = one multi-threaded run (service thread + 1/2/4/8 producer threads x %d triggers each, real pthread mutex, randomised yields between API calls) under ThreadSanitizer for one queue capacity and seed; non-trivial = the lock changed hands between threads and at least one trigger was refused with BUFFER_FULL; distinct by (build, capacity, producers, seed)' % triggers
     shutil.rmtree(bdir, ignore_errors=True)
-    report_and_exit(pid, tier, seed, 'exploration', agg, t0, {'lock_handovers': 1000, 'buffer_full_answers': 100, 'triggers_accepted': 1000}, rule,
+    report_and_exit(pid, tier, seed, 'exploration', agg, t0, {'lock_handovers': 1000, 'buffer_full_answers': 100, 'triggers_accepted': 1000, 'lock_failures_injected_by_timed_mutex': 100}, rule,
                     ['ThreadSanitizer decides only the interleavings that occurred in these runs', 'harness counters are C11 atomics; the hand-over counter is protected by the cAT mutex itself',
                      'the two documented lock-free queries are called from the service thread only'], extra_cov=extra, extra_viol=viols)
 
@@ -566,6 +569,7 @@ def do_replay(path):
     log('replaying:', ' '.join(cmd))
     r = subprocess.run(cmd)
     log('exit', r.returncode, '(1 = violation reproduced)')
+    if hdr.get('san') and r.returncode not in (0, 1): sys.exit(1)      # the sanitizer stopped the process: reproduced
     sys.exit(r.returncode if r.returncode in (0, 1) else 2)
 
 def do_setup():
